@@ -13,4 +13,14 @@ CHECKS = {
  "C04": dict(text="Unbounded deductive proof (Verus): TimedOut is returned only when a deadline exists and has passed to ms granularity; every poll is entered before the deadline with a timeout that does not exceed it; I/O is licensed only by a poll entered before the deadline (overrun bounded by one iteration); comm_wf holds on error exits (resumable).",
              design_ref="DESIGN.md section 4 C04", note=_COMM_NOTE, technique="Verus contracts with a virtual clock in the ghost OS state, on mechanically extracted real code"),
 }
+_PS_NOTE = ("Trusted: the one-child process model units/models/procstate.rs (waitpid/kill/sleep/clock contracts = W-contracts of the src/posix.rs wrappers), "
+            "std Result::unwrap_or spec, trait methods emitted as inherent methods, Drop::drop verified as drop_impl. Liveness of the child is not modelled.")
+CHECKS.update({
+ "C09": dict(text="Unbounded deductive proof (Verus) that every public query/wait method of Popen preserves the representation invariant popen_wf (a status is held only after waitpid returned it for our pid, and it is the kernel's status, or Undetermined after ECHILD), that a finished handle never changes and issues no OS call (final_is_final: world state unchanged), and that pid()/exit_status() project the state; any call sequence therefore preserves it.",
+             design_ref="DESIGN.md section 4 C09", note=_PS_NOTE, technique="Verus contracts: representation invariant over a ghost process model, on mechanically extracted real code"),
+ "C10": dict(text="Unbounded deductive proof (Verus): terminate/kill/send_signal append exactly one (pid, SIGTERM|SIGKILL|sig) to the ghost kill log while the handle is Running and leave the world untouched when Finished; posix::kill's model precondition (our pid, child not yet observed dead) is checked at the only call site.",
+             design_ref="DESIGN.md section 4 C10", note=_PS_NOTE, technique="Verus contracts with a ghost call log, on mechanically extracted real code"),
+ "C11": dict(text="Unbounded deductive proof (Verus) of the wait_timeout loop with a virtual clock: Ok(None) only at or after entry+dur, zero duration means one non-blocking waitpid and no sleep (poll never blocks), every sleep is positive, at most 100 ms and never past the deadline (model preconditions of sleep), one sleep between consecutive status checks, loop terminates (decreases deadline-now).",
+             design_ref="DESIGN.md section 4 C11", note=_PS_NOTE, technique="Verus loop invariant + decreases over a virtual clock, on mechanically extracted real code"),
+})
 NOT_APPLICABLE = {}
